@@ -483,4 +483,66 @@ theorem moniker_guard_partial {S S' : State} {a : Nat} {keys : List String} (h :
 
 example : apply (run init [.register 1 [⟨"moniker", "alice"⟩]]) (.delete 1 ["moniker"]) = none := by decide +kernel
 
+/-! ### export + import of the gov state (`Ident.reimport`) -/
+
+/-- the fields an import does not touch -/
+def SameBooks (S S' : State) : Prop :=
+  S'.lastRecordId = S.lastRecordId ∧ S'.lastReqId = S.lastReqId ∧ S'.bal = S.bal ∧ S'.escrow = S.escrow ∧
+  S'.uniqueKeys = S.uniqueKeys ∧ S'.minTip = S.minTip
+
+theorem setRecord_sameBooks {S S' : State} {r : Record} (h : setRecord S r = some S') : SameBooks S S' := by
+  unfold setRecord at h
+  split at h
+  · cases h
+  · split at h
+    · cases h
+    · cases h; exact ⟨rfl, rfl, rfl, rfl, rfl, rfl⟩
+
+theorem importRecords_sameBooks (rs : List Record) {S S' : State} (h : importRecords rs S = some S') : SameBooks S S' := by
+  induction rs generalizing S with
+  | nil => simp [importRecords] at h; subst h; exact ⟨rfl, rfl, rfl, rfl, rfl, rfl⟩
+  | cons r rs ih =>
+    simp only [importRecords] at h
+    cases hs : setRecord S r with
+    | none => simp [hs] at h
+    | some S1 =>
+      simp only [hs] at h
+      have a := setRecord_sameBooks hs
+      have b := ih h
+      exact ⟨b.1.trans a.1, b.2.1.trans a.2.1, b.2.2.1.trans a.2.2.1, b.2.2.2.1.trans a.2.2.2.1, b.2.2.2.2.1.trans a.2.2.2.2.1, b.2.2.2.2.2.trans a.2.2.2.2.2⟩
+
+theorem foldl_setReq_sameBooks (qs : List Request) (S : State) : SameBooks S (qs.foldl setReq S) := by
+  induction qs generalizing S with
+  | nil => exact ⟨rfl, rfl, rfl, rfl, rfl, rfl⟩
+  | cons q qs ih =>
+    simp only [List.foldl_cons]
+    have b := ih (setReq S q)
+    exact ⟨b.1, b.2.1, b.2.2.1, b.2.2.2.1, b.2.2.2.2.1, b.2.2.2.2.2⟩
+
+/-- **export + import keeps the books**: the two id counters (so that ids handed out afterwards are fresh), every
+balance, the escrow of the gov module account, the unique-key list and the minimum tip are what they were. -/
+theorem reimport_keeps_counters_and_money {S S' : State} (h : reimport S = some S') : SameBooks S S' := by
+  unfold reimport at h
+  simp only at h
+  split at h
+  · cases h
+  · rename_i S1 h1
+    cases h
+    have a := importRecords_sameBooks _ h1
+    have b := foldl_setReq_sameBooks (sortBy (·.id) S.reqs) S1
+    exact ⟨b.1.trans a.1, b.2.1.trans a.2.1, b.2.2.1.trans a.2.2.1, b.2.2.2.1.trans a.2.2.2.1, b.2.2.2.2.1.trans a.2.2.2.2.1, b.2.2.2.2.2.trans a.2.2.2.2.2⟩
+
+def exampleState : State :=
+  { records := [⟨2, 1, "moniker", "bob", 5, []⟩, ⟨1, 0, "moniker", "alice", 3, [7]⟩],
+    idx := [⟨1, "moniker", 2⟩, ⟨0, "moniker", 1⟩, ⟨0, "deleted", 9⟩], lastRecordId := 9,
+    reqs := [⟨4, 0, 7, [1], 0, 100, 3⟩], byReq := [(0, 4)], byApp := [(7, 4)], lastReqId := 4 }
+
+/-- non-vacuity: a registry with two records (ids out of order in the store list), a stale index entry and a pending
+request is imported; the stale index entry is gone, everything else is back -/
+example :
+    (reimport exampleState).map (fun S' => S'.records.map (·.id)) = some [2, 1] ∧
+    (reimport exampleState).map (fun S' => S'.idx.length) = some 2 ∧
+    (reimport exampleState).map (fun S' => (S'.lastRecordId, S'.lastReqId)) = some (9, 4) ∧
+    (reimport exampleState).map (fun S' => S'.byReq) = some [(0, 4)] := by decide
+
 end Sekai.Props.C16
